@@ -306,18 +306,29 @@ def measure_documents(draw, MP):
 
     def data_row(force_note=False):
         cells = [_data_cell(draw, P, paths.typ(k)) for k in range(width())]
-        if force_note or all(c['k'] in ('null',) for c in cells):
+        if all(c['k'] in ('null',) for c in cells) or (force_note and all(c['k'] == 'null' for c, k in zip(cells, range(width())) if paths.typ(k) == KERN)):
+            # at least one sounding cell (note, rest or chord) in a kern spine
             ks = [k for k in range(width()) if paths.typ(k) == KERN]
-            k0 = ks[0]
-            n = draw(G.notes(acc=True, sigs=False, grace=False, optional_dur=False))
-            G.constrain_cell([n])
-            cells[k0] = G.note_cell_from([n], [[]])
+            k0 = draw(st.sampled_from(ks))
+            cells[k0] = draw(G.kern_data_cells(null_weight=0, sigs=False, grace=False, rest_in_chord=False))
         return _row(cells)
 
     pickup = draw(st.integers(0, 3)) == 0
     if pickup:
+        style = draw(st.sampled_from(['any', 'any', 'chords', 'rests']))
         for _ in range(draw(st.integers(1, 2))):
-            rows.append(data_row(force_note=True))
+            r = data_row(force_note=True)
+            if style != 'any':
+                # a pick-up that consists of chords only / rests only (plus nulls) in every kern spine
+                for k, c in enumerate(r['c']):
+                    if paths.typ(k) == KERN and c['k'] != 'null':
+                        if style == 'rests':
+                            n = draw(G.rests(sigs=False))
+                            r['c'][k] = G.note_cell_from([n], [[]])
+                        else:
+                            ns = [draw(G.notes(acc=False, sigs=False, grace=False, optional_dur=False)) for _ in range(2)]
+                            r['c'][k] = G.note_cell_from(ns, [[], []])
+            rows.append(r)
     nm = draw(st.integers(1, MP['max_measures']))
     barno = 0
     open_split = False
